@@ -408,7 +408,6 @@ def case_parorder(ctx, case):
 # ------------------------------------------------------------------------------------------------
 # voxhist: assignments between NRRD writes – the file holds what was assigned LAST
 # ------------------------------------------------------------------------------------------------
-SIG_VOX_THRESH = 'VoxelNeuron.threshold/sparse-voxels-with-values/_values-not-filtered/grid-raises'
 
 
 def _scatter(vox, vals):
@@ -506,6 +505,16 @@ def case_voxhist(ctx, case):
                     vver += 1
                     datas[dver], valss[vver] = datas[dver - 1][keep], cur_vals[keep]
                     ops += [f'D{dver}', f'V{vver}']
+                    # the Lean model of the (repaired) threshold step: same mask on voxels and values
+                    mi, mv = ctx.ask(f"c14.thresh {t} | {','.join(str(int(v)) for v in cur_vals)}").split('|')
+                    ctx.corr(([int(i) for i in np.flatnonzero(keep)], [int(v) for v in cur_vals[keep]]),
+                             ([int(x) for x in mi.split(',') if x], [int(x) for x in mv.split(',') if x]),
+                             'voxels / values kept by threshold vs Lean thresholdSparse', case)
+                    if st == 'ok':
+                        hv = getattr(n, '_values', None)
+                        ctx.oracle(len(n._data) == int(keep.sum()) and (hv is None or len(hv) == len(n._data)),
+                                   f'VoxelNeuron.threshold({t}): {len(n._data)} voxels and {None if hv is None else len(hv)} values remain, '
+                                   f'{int(keep.sum())} voxels have a value >= {t} (voxels and values out of step)', case)
                 if st == 'raise':
                     ctx.oracle(False, f'VoxelNeuron.threshold({t}, inplace=True) raises {type(e).__name__}: {e}', case)
                     return
@@ -520,10 +529,7 @@ def case_voxhist(ctx, case):
             want = current()
             st, e = outcome(lambda: navis.write_nrrd(n, str(fn)))
             if st == 'raise':
-                thr = built == 'sparse' and 'threshold' in steps[:i + 1] and (case.get('init_values', True) or 'values' in steps[:i + 1]) and \
-                    isinstance(e, ValueError) and 'shape mismatch' in str(e)
-                ctx.oracle(False, f'history {steps[:i + 1]} on a {built}-built VoxelNeuron: write_nrrd raises {type(e).__name__}: {str(e)[:120]}', case,
-                           signature=SIG_VOX_THRESH if thr else None)
+                ctx.oracle(False, f'history {steps[:i + 1]} on a {built}-built VoxelNeuron: write_nrrd raises {type(e).__name__}: {str(e)[:120]}', case)
                 return
             data, hdr = nrrd.read(str(fn))
             model = ctx.ask('c14.voxcache ' + ','.join(ops)).split(',')[-1]
@@ -1142,10 +1148,8 @@ def gen_cases(ctx):
     if nrrd:
         for _ in range(ctx.budget(40, 300)):
             built = r.choice(['sparse', 'sparse', 'grid'])
-            pool = ['warm', 'values', 'voxels', 'offset', 'write', 'values'] if built == 'sparse' else ['warm', 'grid', 'offset', 'threshold', 'write']
+            pool = ['warm', 'values', 'voxels', 'offset', 'write', 'values', 'threshold'] if built == 'sparse' else ['warm', 'grid', 'offset', 'threshold', 'write']
             steps = [r.choice(pool) for _ in range(r.randint(2, 6))]
-            if built == 'sparse' and r.random() < 0.1:
-                steps.append('threshold')
             yield 'voxhist', dict(built=built, steps=steps, write_each=r.random() < 0.4, init_values=r.random() < 0.8, seed=S())
     for cont in ('zip', 'dir', 'list') if not ctx.quick() else ():
         for _ in range(2):
